@@ -38,6 +38,15 @@ Theorem C07_ping : forall c ax st n, f_tag n = "iq" -> oeq (f_xmlns n) "urn:xmpp
 Proof. exact ping_thm. Qed.
 Print Assumptions C07_ping.
 
+(* ... and without any hypothesis on the registry when the ping is what the server sends, a request (type get / set):
+   a request pending under the very id the ping carries has no say -- exactly one pong with that id *)
+Theorem C07_server_ping_whatever_is_pending : forall c ax st n, f_tag n = "iq" ->
+  oeq (f_xmlns n) "urn:xmpp:ping" = true -> oeq (f_type n) "result" = false -> oeq (f_type n) "error" = false ->
+  let a := stack_recv repaired c ax st n in
+  answers a = [SPong (f_id n) "s.whatsapp.net" "w:p"] /\ ups a = [] /\ raises a = 0.
+Proof. exact ping_whatever_is_pending_thm. Qed.
+Print Assumptions C07_server_ping_whatever_is_pending.
+
 (* the property for messages at full strength: every well-formed message that is not presentable and is not a
    pure key distribution (the pkmsg part of a group message, skdm_only) gets exactly one receipt, nothing reaches
    the application, nothing raises.  (Until the fix recorded in known_findings/C07.json the theorem needed
